@@ -170,6 +170,30 @@ def ask(drv, obj):
     return r
 
 
+POS_KINDS = ["float64", "float32", "int32", "int64"]     # python lists are rejected by the clean code (TypeError): outside the domain
+
+
+def mkpos(I, a, kind, use_np):
+    """a shift / position argument in the drawn dtype and container (numpy array or torch tensor)"""
+    arr = np.asarray(a).astype(kind)
+    return arr if use_np else I.torch.tensor(arr)
+
+
+def oracle_ramp(nr, nc, pos):
+    """independent float64 phase ramp exp(-2 pi i (k_r r + k_c c)), shape (B, nr, nc)"""
+    pos = np.asarray(pos, dtype=np.float64).reshape(-1, 2)
+    kr, kc = np.fft.fftfreq(nr), np.fft.fftfreq(nc)
+    return np.exp(-2j * np.pi * (kr[None, :, None] * pos[:, 0, None, None] + kc[None, None, :] * pos[:, 1, None, None]))
+
+
+def oracle_shift(x, pos):
+    """independent Fourier shift of x (..., nr, nc) by every row of pos -> (B, ..., nr, nc)"""
+    x = np.asarray(x, dtype=np.complex128)
+    ramp = oracle_ramp(x.shape[-2], x.shape[-1], pos)
+    ramp = ramp.reshape((ramp.shape[0],) + (1,) * (x.ndim - 2) + ramp.shape[1:])
+    return np.fft.ifft2(np.fft.fft2(x)[None] * ramp)
+
+
 def T(I, a, dtype=None):
     return I.torch.tensor(np.asarray(a), dtype=dtype)
 
@@ -403,16 +427,27 @@ def s_shiftint(ctx, drv, I, case):
     real_in = rng.chance(0.3)     # real dtype: the `.real` branch of fourier_shift_expand
     if real_in:
         x = x.real + 0j
-    case.update({"shape": [nr, nc], "shift": [sr, sc], "numpy_branch": use_np, "real_input": real_in})
+    pkind = rng.choice(POS_KINDS)     # dtype of the shift vector: whole-pixel shifts are naturally integer-typed
+    case.update({"shape": [nr, nc], "shift": [sr, sc], "numpy_branch": use_np, "real_input": real_in, "pos_dtype": pkind})
     ctx.count()
-    ctx.mark(("shiftint", psig(nr, nc), sr % nr == 0, sc % nc == 0, sr < 0, sc < 0, use_np, real_in))
+    ctx.mark(("shiftint", psig(nr, nc), sr % nr == 0, sc % nc == 0, sr < 0, sc < 0, use_np, real_in, pkind))
     ctx.dist[f"shiftint.parity={psig(nr, nc)}"] += 1
     ctx.dist[f"shiftint.real_input={real_in}"] += 1
-    pos = np.array([[float(sr), float(sc)]])
+    ctx.dist[f"shiftint.pos={'numpy' if use_np else 'torch'}.{pkind}"] += 1
+    pos = mkpos(I, [[sr, sc]], pkind, use_np)
     if use_np:
         impl = I.pu.fourier_shift_expand(x.real.astype(np.float64) if real_in else x.astype(np.complex128), pos)[0]
     else:
-        impl = I.pu.fourier_shift_expand(T(I, x.real, torch.float64) if real_in else T(I, x, torch.complex128), T(I, pos, torch.float64))[0].numpy()
+        impl = I.pu.fourier_shift_expand(T(I, x.real, torch.float64) if real_in else T(I, x, torch.complex128), pos)[0].numpy()
+    # the translation operator itself against an independent ramp, and additivity against the independent ramp of a+b
+    br, bc = rng.randint(-nr, nr), rng.randint(-nc, nc)
+    pos_b = mkpos(I, [[br, bc]], pkind, use_np)
+    ta = np.asarray(I.pu.fourier_translation_operator(pos, (nr, nc)))
+    tb = np.asarray(I.pu.fourier_translation_operator(pos_b, (nr, nc)))
+    tab = np.asarray(I.pu.fourier_translation_operator(pos + pos_b, (nr, nc)))
+    pred(ctx, f"ramp-int-oracle:{pkind}", "translation operator of an integer shift != exp(-2 pi i k s) (independent oracle)", case, ta, oracle_ramp(nr, nc, [[sr, sc]]), TOL32, "int ramp vs oracle")
+    pred(ctx, f"ramp-int-additive:{pkind}", "T(a)*T(b) != independent ramp of a+b (integer shifts)", case, ta * tb, oracle_ramp(nr, nc, [[sr + br, sc + bc]]), TOL32, "int ramp additivity vs oracle")
+    pred(ctx, f"ramp-int-sum:{pkind}", "T(a+b) != independent ramp of a+b (integer shifts)", case, tab, oracle_ramp(nr, nc, [[sr + br, sc + bc]]), TOL32, "int ramp of sum vs oracle")
     if real_in and np.iscomplexobj(impl):
         ctx.disagree("shift-int", case, "real", "complex", "real input must give a real result")
     mre = ask(drv, {"op": "roll_int", "x": x.real.astype(np.int64).tolist(), "sr": sr, "sc": sc})["ok"]
@@ -424,9 +459,9 @@ def s_shiftint(ctx, drv, I, case):
     if not np.array_equal(np.round(impl.real) + 1j * np.round(impl.imag), model):
         ctx.disagree("shift-int", case, np.array(mre).tolist(), np.round(impl.real).tolist(), "rounded fourier_shift_expand != model roll")
     # NB: not sharper for power-of-two sizes either: `-2j*pi*kr` is evaluated in complex64 (pi rounded to float32)
-    pred(ctx, f"shift-int-roll:{'real' if real_in else 'complex'}:{psig(nr, nc)}", "integer Fourier shift is not the circular roll", case, impl, oracle,
+    pred(ctx, f"shift-int-roll:{'real' if real_in else 'complex'}:{pkind}", "integer Fourier shift is not the circular roll", case, impl, oracle,
          TOL32, "shift-int=roll (complex64 phase ramp)")
-    ctx.sample({k: case[k] for k in ("stream", "rseed", "shape", "shift", "real_input")}, limit=2)
+    ctx.sample({k: case[k] for k in ("stream", "rseed", "shape", "shift", "real_input", "pos_dtype")}, limit=2)
 
 
 # ----------------------------------------------------------------------------- stream: translation operator + sub-pixel shift
@@ -459,11 +494,17 @@ def s_shift(ctx, drv, I, case):
     tpos = np.array([[gen_pos(rng)[0], gen_pos(rng)[0]]], dtype=np.float64)
     real_in = rng.chance(0.15)
     use_np = rng.chance(0.2)
+    pkind = rng.weighted([("float64", 5), ("float32", 2), ("int32", 1), ("int64", 1)])
+    if pkind.startswith("int"):     # integer-typed position arrays hold whole-pixel shifts
+        pos, tpos = np.round(pos), np.round(tpos)
+        kinds = ["int/int"] * B
+    tolp = TOL64 if pkind == "float64" else TOL32      # float32 / integer positions give a complex64 ramp
+    ctx.dist[f"shift.pos={'numpy' if use_np else 'torch'}.{pkind}"] += 1
     shape = (nr, nc) if M == 0 else (M, nr, nc)
     x = rarr(rng, shape, -2, 2) if real_in else carr(rng, shape)
-    case.update({"shape": list(shape), "positions": pos.tolist(), "second_shift": tpos.tolist(), "real_input": real_in, "numpy_branch": use_np})
+    case.update({"shape": list(shape), "positions": pos.tolist(), "second_shift": tpos.tolist(), "real_input": real_in, "numpy_branch": use_np, "pos_dtype": pkind})
     ctx.count()
-    ctx.mark(("shift", psig(nr, nc), M, real_in, use_np, kinds[0]))
+    ctx.mark(("shift", psig(nr, nc), M, real_in, use_np, kinds[0], pkind))
     ctx.dist[f"shift.parity={psig(nr, nc)}"] += 1
     ctx.dist[f"shift.modes={M}"] += 1
     ctx.dist[f"shift.real_input={real_in}"] += 1
@@ -472,7 +513,8 @@ def s_shift(ctx, drv, I, case):
     conv = (lambda a, dt=None: np.asarray(a)) if use_np else (lambda a, dt=None: T(I, a, dt))
     back = (lambda a: np.asarray(a)) if use_np else (lambda a: a.numpy())
     # ---- translation operator
-    top = back(I.pu.fourier_translation_operator(conv(pos, torch.float64), shape))
+    P = lambda a: mkpos(I, a, pkind, use_np)      # noqa: E731  positions in the drawn dtype / container
+    top = back(I.pu.fourier_translation_operator(P(pos), shape))
     want_shape = (B,) + (1,) * (len(shape) - 2) + (nr, nc)
     if top.shape != want_shape:
         ctx.disagree("translation-operator", case, list(want_shape), list(top.shape), "shape")
@@ -481,13 +523,16 @@ def s_shift(ctx, drv, I, case):
     for b in range(B):
         m = dec_img(ask(drv, {"op": "translation_operator", "nr": nr, "nc": nc, "r": f2b(pos[b, 0]), "c": f2b(pos[b, 1])})["ok"])
         corr(ctx, "translation-operator", case, m, top2[b], TOL32)
-    pred(ctx, "ramp-unit-modulus", "|translation operator| != 1", case, np.abs(top2), np.ones_like(top2.real), TOL64, "|ramp|=1")
-    tt = back(I.pu.fourier_translation_operator(conv(tpos, torch.float64), shape)).reshape(1, nr, nc)
-    tsum = back(I.pu.fourier_translation_operator(conv(pos + tpos, torch.float64), shape)).reshape(B, nr, nc)
-    pred(ctx, "ramp-additive", "T(s)*T(t) != T(s+t)", case, top2 * tt, tsum, TOL64, "ramp additivity")
+    pred(ctx, "ramp-unit-modulus", "|translation operator| != 1", case, np.abs(top2), np.ones_like(top2.real), tolp, "|ramp|=1")
+    tt = back(I.pu.fourier_translation_operator(P(tpos), shape)).reshape(1, nr, nc)
+    tsum = back(I.pu.fourier_translation_operator(P(pos) + P(tpos), shape)).reshape(B, nr, nc)
+    pred(ctx, "ramp-additive", "T(s)*T(t) != T(s+t)", case, top2 * tt, tsum, tolp, "ramp additivity")
+    # the same against an independently computed ramp (not against the operator itself)
+    pred(ctx, f"ramp-oracle:{pkind}", "translation operator != exp(-2 pi i (k_r r + k_c c)) (independent oracle)", case, top2, oracle_ramp(nr, nc, pos), TOL32, "ramp vs oracle")
+    pred(ctx, f"ramp-additive-oracle:{pkind}", "T(s)*T(t) != independent ramp of s+t", case, top2 * tt, oracle_ramp(nr, nc, pos + tpos), TOL32, "ramp additivity vs oracle")
     # ---- fourier_shift_expand
     xin = conv(x, torch.float64 if real_in else torch.complex128)
-    y = back(I.pu.fourier_shift_expand(xin, conv(pos, torch.float64)))
+    y = back(I.pu.fourier_shift_expand(xin, P(pos)))
     if y.shape != (B,) + tuple(shape):
         ctx.disagree("fourier-shift", case, [B] + list(shape), list(y.shape), "shape")
         return
@@ -500,17 +545,20 @@ def s_shift(ctx, drv, I, case):
             else:
                 mo = dec_img(ask(drv, {"op": "fourier_shift", "x": enc_img(xs[m_]), "r": f2b(pos[b, 0]), "c": f2b(pos[b, 1])})["ok"])
             corr(ctx, "fourier-shift" + ("-real" if real_in else ""), case, mo, ys[b, m_], TOL32)
+    osh = oracle_shift(x, pos)
+    pred(ctx, f"shift-oracle:{pkind}", "fourier_shift_expand != independently computed Fourier shift", case, y, osh.real if real_in else osh, TOL32, "shift vs oracle")
     if real_in:
-        return      # the property quantifies over complex arrays; `.real` branch: correspondence only
+        return      # the property quantifies over complex arrays; `.real` branch: correspondence + oracle only
     e0 = np.sum(np.abs(xs) ** 2, axis=(-2, -1))
     e1 = np.sum(np.abs(ys) ** 2, axis=(-2, -1))
-    pred(ctx, f"shift-energy:{psig(nr, nc)}", "sub-pixel Fourier shift changes total intensity", case, e1, np.broadcast_to(e0, e1.shape), TOL64, "shift energy")
-    # additivity: shift the b-th result by t, compare with one shift by s+t
+    pred(ctx, f"shift-energy:{psig(nr, nc)}", "sub-pixel Fourier shift changes total intensity", case, e1, np.broadcast_to(e0, e1.shape), tolp, "shift energy")
+    # additivity: shift the b-th result by t, compare with one shift by s+t and with the independent shift by s+t
     for b in range(B):
         yb = conv(y[b], torch.complex128)
-        y2 = back(I.pu.fourier_shift_expand(yb, conv(tpos, torch.float64)))[0]
-        y12 = back(I.pu.fourier_shift_expand(xin, conv(pos[b:b + 1] + tpos, torch.float64)))[0]
-        pred(ctx, f"shift-additive:{psig(nr, nc)}", "shift(shift(x,s),t) != shift(x,s+t)", case, y2, y12, TOL64, "shift additivity")
+        y2 = back(I.pu.fourier_shift_expand(yb, P(tpos)))[0]
+        y12 = back(I.pu.fourier_shift_expand(xin, P(pos[b:b + 1]) + P(tpos)))[0]
+        pred(ctx, f"shift-additive:{psig(nr, nc)}", "shift(shift(x,s),t) != shift(x,s+t)", case, y2, y12, tolp, "shift additivity")
+        pred(ctx, f"shift-additive-oracle:{pkind}", "shift(shift(x,s),t) != independent shift by s+t", case, y2, oracle_shift(x, pos[b:b + 1] + tpos)[0], TOL32, "shift additivity vs oracle")
     ctx.sample({k: case[k] for k in ("stream", "rseed", "shape", "positions")}, limit=3)
 
 
@@ -608,6 +656,8 @@ def s_forward(ctx, drv, I, case):
         obj = phi if real_obj else np.exp(1j * phi)
     else:
         obj = carr(rng, (S, H, W), 1.0)
+        if rng.chance(0.6):      # absorbing object: |O| <= 1 (dyadic scaling keeps the data exact)
+            obj = obj / 2.0
     probe = carr(rng, (M, nr, nc))
     fract = np.array([[dy(rng, -0.5, 0.5, 64), dy(rng, -0.5, 0.5, 64)] for _ in range(B)])
     # --- the real pipeline pieces, in the order of Ptychography.reconstruct
@@ -648,6 +698,12 @@ def s_forward(ctx, drv, I, case):
     # --- predicates
     tot_exit = np.sum(np.abs(on) ** 2, axis=(0, 2, 3))
     pred(ctx, f"detector-parseval:{psig(nr, nc)}", "summed detector intensity != total exit-wave intensity", case, inn.sum(axis=(1, 2)), tot_exit, TOL64, "detector Parseval")
+    if not purephase and maxabs(pn) <= 1.0:      # Props.absorbing_energy_le: |O| <= 1 can only remove intensity
+        ctx.dist["forward.absorbing_bound_checked"] += 1
+        ptot = np.sum(np.abs(probe) ** 2)
+        excess = np.maximum(inn.sum(axis=(1, 2)) - ptot, 0.0)
+        pred(ctx, "absorbing-energy-le", "summed predicted intensity exceeds the probe intensity for an absorbing object (|O| <= 1)", case,
+             excess, np.zeros(B), 1e-5 * max(1.0, ptot), "absorbing object: intensity excess over probe")
     if purephase:
         amp = np.abs(pn)
         pred(ctx, "pure-phase-patches", "patches of a pure-phase object are not unit modulus", case, amp, np.ones_like(amp), TOL64, "|obj patch|=1")
@@ -828,8 +884,17 @@ def s_instance(ctx, drv, I, case):
         newobj = T(I, np.exp(1j * phi).astype(np.complex64), torch.complex64)   # complex object that happens to be pure phase
     p.obj_model._obj.data = newobj
     patches = p.obj_model.forward(idx_t)                                   # (1, nb, nr, nc): hard constraints + _get_obj_patches
-    fract = T(I, np.array([[dy(rng, -0.5, 0.5, 64), dy(rng, -0.5, 0.5, 64)] for _ in range(nb)]), torch.float32)
+    fkind = rng.weighted([("float32", 4), ("float64", 2), ("int32", 1), ("int64", 1)])
+    fvals = np.array([[dy(rng, -0.5, 0.5, 64), dy(rng, -0.5, 0.5, 64)] for _ in range(nb)])
+    if fkind.startswith("int"):
+        fvals = np.array([[rng.randint(-2, 2), rng.randint(-2, 2)] for _ in range(nb)], dtype=np.float64)
+    ctx.dist[f"instance.probe_forward.pos={fkind}"] += 1
+    case.update({"probe_pos_dtype": fkind})
+    fract = mkpos(I, fvals, fkind, False)
     shifted = p.probe_model.forward(fract)                                 # (M, nb, nr, nc) complex64
+    probe0 = p.probe_model.probe.detach().numpy().astype(np.complex128)
+    pred(ctx, f"probe-forward-shift:{fkind}", "probe_model.forward(positions) != independently shifted probe stack", case,
+         shifted.detach().numpy().astype(np.complex128), np.swapaxes(oracle_shift(probe0, fvals), 0, 1), TOL32, "probe forward vs oracle shift")
     if dkind == "none":
         descan = None
     elif dkind == "zero":
@@ -1031,14 +1096,19 @@ def _history_body(ctx, I, case, rng, op, k, grad):
     if op == "translation":
         use_np = rng.chance(0.3) and not grad
         poss = [np.array([[dy(rng, -5, 5, 64), dy(rng, -5, 5, 64)]]) for _ in range(k)]
+        ipos = rng.chance(0.3) and not grad
+        if ipos:
+            poss = [np.round(p) for p in poss]
         poss.append(poss[0] + poss[1])
-        ins = [p if use_np else rg(T(I, p, rdt)) for p in poss]
+        case.update({"int_positions": ipos})
+        ins = [mkpos(I, p, "int64", use_np) if ipos else (p if use_np else rg(T(I, p, rdt))) for p in poss]
         kept = run_history(ctx, case, op, [((lambda p=p: I.pu.fourier_translation_operator(p, (nr, nc))), [p]) for p in ins])
         if kept is None:
             return
         tn = [np.asarray(o[0].detach().numpy() if hasattr(o[0], "detach") else o[0]) for o in kept]
-        pred(ctx, "history-ramp-unit", "kept translation operators are not unit modulus", case, np.abs(np.stack(tn)), np.ones((k + 1, 1, nr, nc)), tol, "history |ramp|=1")
-        pred(ctx, "history-ramp-additive", "T(s)*T(t) != T(s+t) with all three kept", case, tn[0] * tn[1], tn[-1], tol, "history ramp additivity")
+        pred(ctx, "history-ramp-unit", "kept translation operators are not unit modulus", case, np.abs(np.stack(tn)), np.ones((k + 1, 1, nr, nc)), TOL32 if ipos else tol, "history |ramp|=1")
+        pred(ctx, "history-ramp-additive", "T(s)*T(t) != T(s+t) with all three kept", case, tn[0] * tn[1], tn[-1], TOL32 if ipos else tol, "history ramp additivity")
+        pred(ctx, "history-ramp-oracle", "kept translation operators != independent ramps", case, np.stack(tn)[:, 0], oracle_ramp(nr, nc, np.concatenate(poss)), TOL32, "history ramp vs oracle")
     elif op == "shift":
         use_np = rng.chance(0.3) and not grad
         xs = [carr(rng, (nr, nc)) for _ in range(k)]
